@@ -336,8 +336,10 @@ class _Sim(object):
                 ev["did"].append(["root_level", act["level"]])
             elif a == "advance":
                 self.clock.advance(act["dt"])
-            elif a == "table_add_row":
+            elif a == "examples_table":
                 self.do_table_mutation(ev, element, act)
+            elif a == "step_table":
+                self.do_step_table_mutation(ev, context, act)
             else:
                 raise RuntimeError("unknown action %r" % (act,))
 
@@ -489,7 +491,33 @@ class _Sim(object):
                 self.fire("autoretry_patched")
 
     def do_table_mutation(self, ev, feature, act):
-        pass
+        """Examples-table API mutation (C06): add_row / add_column on an outline's examples table."""
+        from behave.model import ScenarioOutline
+        for so in feature.walk_scenarios(with_outlines=True):
+            if isinstance(so, ScenarioOutline) and self.elem_id(so) == act["outline"]:
+                ex = so.examples[act["e"]] if act["e"] < len(so.examples) else None
+                if ex is None or ex.table is None:
+                    return
+                if act["what"] == "add_row":
+                    ex.table.add_row(list(act["cells"]))
+                    ev["did"].append(["table_add_row", act["outline"], act["e"], list(act["cells"])])
+                else:
+                    ex.table.add_column(act["column"], default_value=act["value"])
+                    ev["did"].append(["table_add_column", act["outline"], act["e"], act["column"], act["value"]])
+                self.fire("examples-table-" + act["what"])
+
+    def do_step_table_mutation(self, ev, context, act):
+        t = getattr(context, "table", None)
+        if t is None:
+            return
+        if act["what"] == "add_row":
+            t.add_row([u"MUT"] * len(t.headings))
+        elif t.rows:
+            t.rows[0].cells[0] = u"MUT"
+        else:
+            t.headings[0] = u"MUT"
+        ev["did"].append(["step_table_mutated", act["what"]])
+        self.fire("step-table-mutated")
 
     # -- outcome -----------------------------------------------------------
     def realise(self, ev, out, context=None):
@@ -904,6 +932,12 @@ def census(runner):
             return {"kind": "outline", "id": sid_fn(it), "line": it.line, "name": it.name,
                     "tags": [str(t) for t in it.tags], "status": it.status.name,
                     "should_skip": bool(it.should_skip),
+                    "template_steps": [{"name": st.name, "text": _jsonable(st.text) if st.text is not None else None,
+                                        "table": _table_jsonable(st.table)} for st in it.steps],
+                    "examples": [{"name": ex.name, "tags": [str(t) for t in ex.tags],
+                                  "headings": list(ex.table.headings) if ex.table is not None else None,
+                                  "rows": [list(r.cells) for r in ex.table.rows] if ex.table is not None else None}
+                                 for ex in it.examples],
                     "items": [scen_rec(x, sid_fn) for x in it.scenarios]}
         return scen_rec(it, sid_fn)
 
